@@ -402,6 +402,7 @@ Theorem C16_qos1_exchange_idle_to_idle : forall w r s2 op ps,
     rt_quota (s_rt (w_sess w2)) = N.min (N.min (rt_quota (s_rt (w_sess w)) - 1 + 1) 65535) (rt_maxquota (s_rt (w_sess w))) /\
     rt_maxquota (s_rt (w_sess w2)) = rt_maxquota (s_rt (w_sess w)) /\ rt_quota (s_rt (w_sess w)) <> 0 /\
     ob_cap (s_ob (w_sess w2)) = ob_cap (s_ob (w_sess w)) /\
+    rt_maxqos (s_rt (w_sess w2)) = rt_maxqos (s_rt (w_sess w)) /\
     Idle w2.
 Proof. exact qos1_exchange_idle. Qed.
 
@@ -422,13 +423,29 @@ Theorem C16_exchange_idle_to_idle : forall w q,
   IdleQ w -> request_ok (ob_cap (s_ob (w_sess w))) w q ->
   exists op w2, exchange w q op w2 /\
     has_retained (s_ob (w_sess w2)) (op_pid op) = false /\ has_pending_release (s_ob (w_sess w2)) (op_pid op) = false /\
-    w_now w2 = w_now w /\ ob_cap (s_ob (w_sess w2)) = ob_cap (s_ob (w_sess w)) /\ IdleQ w2.
+    w_now w2 = w_now w /\ ob_cap (s_ob (w_sess w2)) = ob_cap (s_ob (w_sess w)) /\ IdleQ w2 /\
+    rt_maxqos (s_rt (w_sess w2)) = rt_maxqos (s_rt (w_sess w)).
 Proof. exact exchange_idle. Qed.
 
 Theorem C16_history_completes : forall qs w,
   IdleQ w -> wanted_all (ob_cap (s_ob (w_sess w))) qs w ->
   exists w', history w qs w' /\ IdleQ w' /\ w_now w' = w_now w.
 Proof. exact history_completes. Qed.
+
+(* the requests judged once, against the initial session: no exchange changes the configuration (`C16_exchange_keeps_config`: no
+   step of the session LTS does, `CfgFrame.v`) or the broker's Maximum QoS, so a request is the same QoS all along *)
+Theorem C16_exchange_keeps_config : forall w q op w2, exchange w q op w2 -> s_cfg (w_sess w2) = s_cfg (w_sess w).
+Proof. exact exchange_cfg. Qed.
+
+Theorem C16_history_completes_static : forall qs w,
+  IdleQ w -> Forall (request_ok (ob_cap (s_ob (w_sess w))) w) qs ->
+  exists w', history w qs w' /\ IdleQ w' /\ w_now w' = w_now w.
+Proof. exact history_completes_static. Qed.
+
+Theorem C16_static_history_hyps_met :
+  IdleQ ex_b1 /\
+  Forall (request_ok (ob_cap (s_ob (w_sess ex_b1))) ex_b1) [ex_req_sub; ex_req_q2; ReqPublish ex_pub; ReqUnsubscribe [ex_filter] []; ex_req_q2].
+Proof. exact static_history_hyps_met. Qed.
 
 Theorem C16_qos2_exchange_idle_to_idle : forall w r s2 op ps,
   Idle w ->
@@ -443,6 +460,7 @@ Theorem C16_qos2_exchange_idle_to_idle : forall w r s2 op ps,
     rt_quota (s_rt (w_sess w3)) = N.min (N.min (rt_quota (s_rt (w_sess w)) - 1 + 1) 65535) (rt_maxquota (s_rt (w_sess w))) /\
     rt_maxquota (s_rt (w_sess w3)) = rt_maxquota (s_rt (w_sess w)) /\ rt_quota (s_rt (w_sess w)) <> 0 /\
     ob_cap (s_ob (w_sess w3)) = ob_cap (s_ob (w_sess w)) /\
+    rt_maxqos (s_rt (w_sess w3)) = rt_maxqos (s_rt (w_sess w)) /\
     Idle w3.
 Proof. exact qos2_exchange_idle. Qed.
 
@@ -514,3 +532,6 @@ Print Assumptions C16_qos2_exchange_idle_to_idle.
 Print Assumptions C16_subscribe_exchange_idle_to_idle.
 Print Assumptions C16_unsubscribe_exchange_idle_to_idle.
 Print Assumptions C16_mixed_history_hyps_met.
+Print Assumptions C16_exchange_keeps_config.
+Print Assumptions C16_history_completes_static.
+Print Assumptions C16_static_history_hyps_met.
